@@ -31,6 +31,9 @@ OBLIGATION_MSGS = [
     ("failed to prove", "assertion"),
     ("cannot show", "assertion"),
     ("index out of bounds", "bounds"),
+    ("index in bounds", "bounds"),             # "precondition not met: index in bounds for this access"
+    ("out of bounds", "bounds"),
+    ("precondition not met", "precondition"),
     ("loop ensures not satisfied", "loop-ensures"),
     ("constructed value may fail to meet its declared type invariant", "type-invariant"),
     ("value may be out of range of the target type", "overflow"),
